@@ -5,6 +5,7 @@ import (
 	"fmt"
 	"net"
 	"strconv"
+	"strings"
 	"testing"
 	"time"
 
@@ -242,12 +243,58 @@ func evalC03Idle(c c03Idle) *Failure {
 	return nil
 }
 
-func init() { register("c03.idle", evalC03Idle) }
+// c03Volume: one connection that carries a large volume of requests (N requests with an argument of ArgLen bytes each,
+// every reply read before the next request): every request is answered, whatever the connection has carried before.
+type c03Volume struct {
+	N      int `json:"n"`
+	ArgLen int `json:"arg_len"`
+}
+
+func evalC03Volume(c c03Volume) *Failure {
+	srv, _ := newRecServer()
+	m, err := connsim.NewMulti(srv, 1, serveTimeout())
+	if err != nil {
+		return failf("harness|multi", "%v", err)
+	}
+	defer m.CloseAll()
+	what := fmt.Sprintf("%d requests with an argument of %d bytes each on one connection (%d MiB in total)", c.N, c.ArgLen, c.N*c.ArgLen>>20)
+	req := resp.Cmd("SET", "k", strings.Repeat("v", c.ArgLen)).Bytes()
+	for i := 0; i < c.N; i++ {
+		frames, alive, err := m.Step(0, req)
+		if err != nil {
+			return stallFailure("c03|volume", fmt.Sprintf("%s: request %d", what, i))
+		}
+		if !alive || len(frames) != 1 || frames[0].IsError() {
+			return failf("c03|volume|reply", "%s: request %d (after %d MiB) got %d replies %v, connection alive: %v", what, i, i*c.ArgLen>>20, len(frames), frames, alive)
+		}
+	}
+	frames, alive, err := m.Step(0, resp.Cmd("PING").Bytes())
+	if err != nil || !alive || len(frames) != 1 || !frames[0].Equal(resp.S("PONG")) {
+		return failf("c03|volume|reply", "%s: the PING after them got %v (alive %v, %v)", what, frames, alive, err)
+	}
+	return nil
+}
+
+// evalC03Slow: while one connection reads its reply late, the fully received requests of another connection are
+// answered (the c04 slow-reader scenario, judged for liveness).
+func evalC03Slow(c c04Slow) *Failure {
+	f := evalC04Slow(c)
+	if f != nil && strings.HasSuffix(f.Key, "|stall") {
+		return failf("c03|stall|behind-a-slow-reader", "%s", f.Detail)
+	}
+	return nil
+}
+
+func init() {
+	register("c03.idle", evalC03Idle)
+	register("c03.volume", evalC03Volume)
+	register("c03.slow", evalC03Slow)
+}
 
 func TestC03(t *testing.T) {
 	h := newHarness(t, "C03", "pipelines of 1..12 requests drawn from every registered command (well-formed from the grammar with all option flags, ill-formed table entries, surplus arguments, unknown names; QUIT at a random position in 20%) "+
 		"x chunkings of the byte stream (whole, per request, per byte, random k-way biased to length prefixes and CR|LF) x scripted handler errors. Oracle: strict decoder splits the output into exactly one frame per request up to the first QUIT; "+
-		"reply i is tied to request i through the handler call made while i frames were complete; at every moment the server asks for undelivered bytes it has answered every fully delivered request; watchdog for stalls; QUIT semantics. Two connections on real listeners (plain, TLS) stay idle for 12 s (thorough: also 75 s) between two requests and must still be answered. "+
+		"reply i is tied to request i through the handler call made while i frames were complete; at every moment the server asks for undelivered bytes it has answered every fully delivered request; watchdog for stalls; QUIT semantics. Two connections on real listeners (plain, TLS) stay idle for 12 s (thorough: also 75 s) between two requests and must still be answered. One connection carries more than a gigabyte of requests (36 x 32 MiB) and must still be answered; a peer's requests are answered while another connection reads its reply late. "+
 		"Non-trivial: >=3 requests and (a chunk boundary inside the stream, QUIT not last, an option-bearing command, or a handler error). Distinct = distinct (stream, chunking, script).")
 	defer h.Finish()
 	h.Probes()
@@ -293,6 +340,20 @@ func TestC03(t *testing.T) {
 			h.Report("c03.idle", r.c, r.f)
 		}
 	}()
+
+	if h.Shard == h.NShards-1 {
+		// more than a gigabyte of requests through one connection
+		for _, c := range []c03Volume{{N: 36, ArgLen: 32 << 20}, {N: 3000, ArgLen: 100}} {
+			h.Col.Case(true, []byte(fmt.Sprint("volume", c)), "connection-volume")
+			h.Report("c03.volume", c, evalC03Volume(c))
+		}
+		// a peer's request while another connection reads its reply late
+		for _, c := range []c04Slow{{Handler: "example", Stream: []resp.Value{resp.Cmd("PING")}, Peer: [][]string{{"PING"}, {"ECHO", "x"}}},
+			{Handler: "recorder", Stream: []resp.Value{resp.Cmd("GET", "k"), resp.Cmd("ECHO", strings.Repeat("A", 70000))}, Peer: [][]string{{"GET", "k"}}}} {
+			h.Col.Case(true, []byte(fmt.Sprint("slow", c.Handler, len(c.Stream))), "peer-behind-slow-reader")
+			h.Report("c03.slow", c, evalC03Slow(c))
+		}
+	}
 
 	h.Rapid("pipelines", h.N(30000, 400000), func(rt *rapid.T) {
 		c, labels := genPipeline(rt, h.Avoid, 12, false)
